@@ -50,7 +50,15 @@ def mutants_table():
         for e in es:
             out += "| %s | %s |\n" % (e["id"], ", ".join(e["properties"]))
     eq = sorted(glob.glob(V + "/mutants/equiv/*.diff"))
-    out += "\nBehaviour-preserving variants (every one of the 19 checks must stay silent): " + ", ".join(os.path.basename(e)[:-5] for e in eq) + ".\n"
+    known = {}
+    kp = V + "/mutants/equiv/KNOWN_ALARMS.json"
+    if os.path.exists(kp):
+        known = {e["id"]: e["reason"] for e in json.load(open(kp))}
+    out += "\nBehaviour-preserving variants (every one of the 19 checks must stay silent): " + ", ".join(os.path.basename(e)[:-5] for e in eq if os.path.basename(e)[:-5] not in known) + ".\n"
+    if known:
+        out += "\nBehaviour-preserving variants that still raise an alarm (known limitations, section 9.6):\n\n"
+        for k, v in known.items():
+            out += "* `%s` — %s\n" % (k, v)
     return out
 
 
